@@ -194,6 +194,17 @@ def check_map(rec, rng, rules, strict, merge, rd, script, scheme, sub):
         if bound:
             A, mkw = m.bind("h.com", script, subdomain=sub, url_scheme=scheme, query_args=q), {}
             rec.observe("query_given_at_bind_time")
+        elif qkind in ("none", "str") and rng.random() < 0.25:
+            # the adapter made from the request environ, as a WSGI application does it: scheme (websocket upgrade
+            # included), host, subdomain, script root, path and query all come from there
+            env_ = {"REQUEST_METHOD": method, "wsgi.url_scheme": {"ws": "http", "wss": "https"}.get(scheme, scheme), "SERVER_NAME": "srv.internal", "SERVER_PORT": "8000",
+                    "HTTP_HOST": f"{sub}.h.com" if sub else "h.com", "SCRIPT_NAME": script.rstrip("/"), "PATH_INFO": (p if p.startswith("/") else "/" + p).encode("utf-8").decode("latin-1"),
+                    "QUERY_STRING": q or ""}
+            if ws:
+                env_["HTTP_CONNECTION"], env_["HTTP_UPGRADE"] = "keep-alive, Upgrade", "WebSocket"
+            A, mkw = m.bind_to_environ(env_, server_name="h.com"), {}
+            bound = True
+            rec.observe("adapters_bound_to_an_environ")
         else:
             A, mkw = ad, {"query_args": q}
         case = dict(base_case, path=p, query=qkind, method=method, query_bound_to_adapter=bound)
